@@ -10,7 +10,7 @@
    validity mask computed at each coarse level are INPUTS of this model.
    Definitions only (no proofs). *)
 From Coq Require Import ZArith QArith List Bool.
-From Pandora Require Import Model.Dataset.
+From Pandora Require Import Lib.Blocks Model.Dataset Model.Machine.
 Import ListNotations.
 Open Scope Z_scope.
 
@@ -19,14 +19,13 @@ Open Scope Z_scope.
 (* a step of cfg["pipeline"]: is its name "multiscale[.suffix]", and its optional parameters *)
 Record step_cfg := mkStepCfg { sc_is_msc : bool; sc_num_scales : option Z; sc_scale_factor : option Z }.
 
-Definition PYRAMID_NUM_SCALES : Z := 2.
-Definition PYRAMID_SCALE_FACTOR : Z := 2.
 Definition dflt (o : option Z) (d : Z) : Z := match o with Some z => z | None => d end.
 
-(* the first multiscale step of the pipeline section decides; (1, 1) without one *)
-Definition read_multiscale_params (steps : list step_cfg) : Z * Z :=
+(* the first multiscale step of the pipeline section decides; (1, 1) without one.
+   [dn], [dsf] = _PYRAMID_NUM_SCALES, _PYRAMID_SCALE_FACTOR of the multiscale class (Gen/MsConst.v) *)
+Definition read_multiscale_params (dn dsf : Z) (steps : list step_cfg) : Z * Z :=
   match filter sc_is_msc steps with
-  | s :: _ => (dflt (sc_num_scales s) PYRAMID_NUM_SCALES, dflt (sc_scale_factor s) PYRAMID_SCALE_FACTOR)
+  | s :: _ => (dflt (sc_num_scales s) dn, dflt (sc_scale_factor s) dsf)
   | [] => (1, 1)
   end.
 
@@ -58,35 +57,12 @@ Definition scale_interval (sf : Z) (i : Q * Q) : Q * Q := ((fst i * qz sf)%Q, (s
 (* int(x): truncation toward zero *)
 Definition qtrunc (q : Q) : Z := Z.quot (Qnum q) (Zpos (Qden q)).
 
-(* ------------------------------------------------------------------ block loop of disparity_range *)
-
-(* np.arange(B, n, B) *)
-Definition split_pts (B n : Z) : list Z :=
-  map (fun k => B * Z.of_nat (S k)) (seq 0 (Z.to_nat ((n - 1) / B))).
-
-(* np.array_split(a, pts) on an axis of length N: (start, length) of a[prev:p], ..., a[last:N] *)
-Fixpoint pieces (pts : list Z) (prev N : Z) : list (Z * Z) :=
-  match pts with
-  | [] => [(Z.min prev N, N - Z.min prev N)]
-  | p :: r => (Z.min prev N, Z.min p N - Z.min prev N) :: pieces r p N
-  end.
-
-(* the running y_begin / x_begin: (destination begin, source start, length) of each chunk *)
-Fixpoint blk_loop (ps : list (Z * Z)) (begin : Z) : list (Z * Z * Z) :=
-  match ps with
-  | [] => []
-  | (st, len) :: r => (begin, st, len) :: blk_loop r (begin + len)
-  end.
-
-(* index of the window written at destination y by  out[begin:begin+len] = chunk  (last write wins) *)
-Definition blk_src (B n nwin off y : Z) : option Z :=
-  fold_left (fun acc t => let '(b, st, len) := t in
-                          if (b <=? y) && (y <? b + len) then Some (st + (y - b)) else acc)
-            (blk_loop (pieces (split_pts B n) 0 nwin) off) None.
-
-Definition CHUNK : Z := 100.
-
 (* ------------------------------------------------------------------ disparity_range *)
+
+(* chunk_size = 100 of FixedZoomPyramid.disparity_range; the double block loop is the generic
+   combinator Lib/Blocks.loop2 (np.array_split of the window array with split points taken
+   from the size of the disparity map, running y_begin / x_begin starting at offset) *)
+Definition CHUNK : Z := 100.
 
 Definition qmin2 (a b : Q) : Q := if Qle_bool a b then a else b.
 Definition qmax2 (a b : Q) : Q := if Qle_bool a b then b else a.
@@ -99,6 +75,12 @@ Section DisparityRange.
   Variable D : arr (option Q).          (* disp["disparity_map"] of the coarse level (None = NaN) *)
   Variable V : arr Z.                   (* disp["validity_mask"] *)
   Variables umin umax : Q.              (* dmin_user / dmax_user of that level (after x sf) *)
+  (* scipy.ndimage.zoom(a, sf, order=0) as an index map per axis: output row r reads input row
+     zrow r, output column c reads input column zcol c.  The maps are DATA (the harness
+     observes them on the very zoom calls of the run); the theorems hold for every pair of
+     maps satisfying the order-0 contract (Spec.zoom_contract); [zoom_idx] below is the exact
+     rational formula, which scipy follows except on exact ties *)
+  Variables zrow zcol : Z -> Z.
 
   Definition rows : Z := nr D.
   Definition cols : Z := nc D.
@@ -107,6 +89,8 @@ Section DisparityRange.
   (* mask_invalid_disparities *)
   Definition invalid (r c : Z) : bool := negb (Z.land (px V r c) invalid_bits =? 0).
   Definition tmp_disp (r c : Z) : option Q := if invalid r c then None else px D r c.
+  (* invalid_ind = np.where(np.isnan(tmp_disp_map)) *)
+  Definition isnan_tmp (r c : Z) : bool := match tmp_disp r c with None => true | Some _ => false end.
 
   (* the non-NaN values of sliding window (i, j): rows i..i+ws-1, columns j..j+ws-1 *)
   Definition win_vals (i j : Z) : list Q :=
@@ -116,32 +100,37 @@ Section DisparityRange.
 
   Definition fallback_min : Q := qz (qtrunc umin).   (* int(np.nanmin(disp_min)) *)
   Definition fallback_max : Q := qz (qtrunc umax).
+  Definition fallback : option Q * option Q := (Some fallback_min, Some fallback_max).
 
-  (* disp_min_range / disp_max_range before the zoom; None = NaN *)
-  Definition range_at (r c : Z) : option Q * option Q :=
-    if invalid r c then (Some fallback_min, Some fallback_max)
-    else match blk_src CHUNK rows (rows - ws + 1) offset r, blk_src CHUNK cols (cols - ws + 1) offset c with
-         | Some i, Some j =>
-           let vals := win_vals i j in
-           (option_map (fun m => (m - qz marge)%Q) (qfold qmin2 vals),
-            option_map (fun m => (m + qz marge)%Q) (qfold qmax2 vals))
-         | _, _ => (Some fallback_min, Some fallback_max)
-         end.
+  (* np.nanmin(window) - marge, np.nanmax(window) + marge; None = NaN (All-NaN window) *)
+  Definition win_range (i j : Z) : option Q * option Q :=
+    let vals := win_vals i j in
+    (option_map (fun m => (m - qz marge)%Q) (qfold qmin2 vals),
+     option_map (fun m => (m + qz marge)%Q) (qfold qmax2 vals)).
 
-  (* scipy.ndimage.zoom(a, sf, order=0): output index o reads input index
-     floor(o * (n - 1) / (sf * n - 1) + 1/2) *)
-  Definition zoom_idx (n o : Z) : Z := (2 * o * (n - 1) + (sf * n - 1)) / (2 * (sf * n - 1)).
+  (* np.full_like(..., int(nanmin/nanmax)) then the chunked double loop; B = chunk size *)
+  Definition looped (B : Z) : Z -> Z -> option Q * option Q :=
+    loop2 win_range B rows cols (rows - ws + 1) (cols - ws + 1) offset offset (fun _ _ => fallback).
+
+  (* disp_min_range / disp_max_range before the zoom:  range[invalid_ind] = int(user) *)
+  Definition range_at_B (B r c : Z) : option Q * option Q :=
+    if isnan_tmp r c then fallback else looped B r c.
+  Definition range_at : Z -> Z -> option Q * option Q := range_at_B CHUNK.
 
   (* disparity_range(...) : the two zoomed maps, of shape (sf * rows, sf * cols) *)
   Definition disparity_range : arr (option Q * option Q) :=
-    mkArr (sf * rows) (sf * cols) (fun r c => range_at (zoom_idx rows r) (zoom_idx cols c)).
+    mkArr (sf * rows) (sf * cols) (fun r c => range_at (zrow r) (zcol c)).
 
   (* ... then matching_cost_prepare of the next level: x scale_factor *)
+  Definition scale_pair (p : option Q * option Q) : option Q * option Q :=
+    (option_map (fun x => (x * qz sf)%Q) (fst p), option_map (fun x => (x * qz sf)%Q) (snd p)).
   Definition next_grids : arr (option Q * option Q) :=
-    mkArr (sf * rows) (sf * cols)
-          (fun r c => let '(a, b) := px disparity_range r c in
-                      (option_map (fun x => (x * qz sf)%Q) a, option_map (fun x => (x * qz sf)%Q) b)).
+    mkArr (sf * rows) (sf * cols) (fun r c => scale_pair (px disparity_range r c)).
 End DisparityRange.
+
+(* scipy.ndimage.zoom(a, sf, order=0), exact arithmetic: output index o reads input index
+   floor(o * (n - 1) / (sf * n - 1) + 1/2) *)
+Definition zoom_idx (sf n o : Z) : Z := (2 * o * (n - 1) + (sf * n - 1)) / (2 * (sf * n - 1)).
 
 (* ------------------------------------------------------------------ the whole data flow *)
 
@@ -150,7 +139,8 @@ End DisparityRange.
 Record level := mkLevel {
   lv_ws : Z;
   lv_left : arr (option Q) * arr Z;
-  lv_right : option (arr (option Q) * arr Z) }.
+  lv_right : option (arr (option Q) * arr Z);
+  lv_zoom : (Z -> Z) * (Z -> Z) }.       (* row and column index maps of the zoom calls of this level *)
 
 (* the grids (disp_min, disp_max) seen by one execution of matching_cost_run *)
 Inductive grids :=
@@ -166,10 +156,12 @@ Fixpoint finer_grids (invalid_bits marge sf : Z) (user : Q * Q) (lvls : list lev
   | [] => []
   | l :: rest =>
     let u := scale_interval sf user in
-    let gl := next_grids invalid_bits (lv_ws l) marge sf (fst (lv_left l)) (snd (lv_left l)) (fst u) (snd u) in
+    let gl := next_grids invalid_bits (lv_ws l) marge sf (fst (lv_left l)) (snd (lv_left l)) (fst u) (snd u)
+                         (fst (lv_zoom l)) (snd (lv_zoom l)) in
     let ur := right_interval u in
     let gr := option_map (fun dv => GMap (next_grids invalid_bits (lv_ws l) marge sf (fst dv) (snd dv)
-                                                     (fst ur) (snd ur))) (lv_right l) in
+                                                     (fst ur) (snd ur) (fst (lv_zoom l)) (snd (lv_zoom l))))
+                         (lv_right l) in
     (GMap gl, gr) :: finer_grids invalid_bits marge sf u rest
   end.
 
@@ -182,3 +174,32 @@ Definition run_grids (invalid_bits marge sf dmin dmax H W : Z) (n : nat) (with_r
   let first := scale_interval sf i0 in
   (GConst H W first, if with_right then Some (GConst H W (right_interval first)) else None)
   :: finer_grids invalid_bits marge sf i0 lvls.
+
+(* ------------------------------------------------------------------ images of the scale loop *)
+
+(* prepare_pyramid: pyramid_gaussian / masks_pyramid build level 0 (the original dataset),
+   1, ..., n-1, each one reduction of the previous one; the list is reversed (coarse first) *)
+Definition pyramid_sizes (n : nat) (H W sf : Z) : list (Z * Z) :=
+  rev (map (fun k => (level_size k H sf, level_size k W sf)) (seq 0 n)).
+
+(* run_prepare pops the first dataset; run_multiscale (left call of a multiscale step that
+   fires) pops the next one:  left_img = img_left_pyramid.pop(0).  [pops] = number of pops
+   done by run_multiscale before the callback execution [e] *)
+Definition is_msc_left (e : ev) : bool :=
+  match e with Ev _ Msc _ false => true | _ => false end.
+
+Fixpoint annotate (pops : nat) (tr : list ev) : list (ev * nat) :=
+  match tr with
+  | [] => []
+  | e :: r => (e, pops) :: annotate (if is_msc_left e then S pops else pops) r
+  end.
+
+(* the image (rows, cols) in machine.left_img / right_img during each callback execution *)
+Definition image_sizes (n : nat) (H W sf : Z) (tr : list ev) : list (ev * (Z * Z)) :=
+  map (fun ep => (fst ep, nth (snd ep) (pyramid_sizes n H W sf) (0, 0))) (annotate 0 tr).
+
+(* pandora.run returns machine.left_disparity: the disparity dataset has the coordinates of
+   the image of the last disparity execution *)
+Definition output_size (n : nat) (H W sf : Z) (tr : list ev) : Z * Z :=
+  last (map snd (filter (fun ep => match fst ep with Ev _ Dsp _ false => true | _ => false end)
+                        (image_sizes n H W sf tr))) (0, 0).
